@@ -381,6 +381,7 @@ func (i *interpreter) hashHex(s value) value {
 	}
 	p.usesStr = true
 	h := &Sym{sort: SStr, e: "(HashHex " + tStr(s) + ")"}
+	h.ln = int64(64)
 	key := "hashshape:" + h.e
 	if !p.declSet[key] {
 		p.declSet[key] = true
@@ -389,7 +390,6 @@ func (i *interpreter) hashHex(s value) value {
 		p.pc = append(p.pc, "(= (str.len "+h.e+") 64)",
 			"(=> (> (str.len "+tStr(s)+") 0) (not (= "+h.e+" \"e3b0c44298fc1c149afbf4c8996fb92427ae41e4649b934ca495991b7852b855\")))")
 		i.ex.noteAssumption("SHA-256 is an uninterpreted function; the only collision-freeness assumed is that non-empty content does not hash to the digest of the empty string")
-		h.ln = int64(64)
 		var hexs [256]bool
 		for c := '0'; c <= '9'; c++ {
 			hexs[c] = true
